@@ -105,6 +105,53 @@ def key(R, ctx):
         R.require(rid, "inline_require|floor", n >= 2, ctx.where(fn2), "%d keyed operations found (cache get/insert, stack push)" % n)
 
 
+def canonical_key(R, ctx):
+    """One file, one module: the key under which a required module is cached does not depend on how the require was spelled."""
+    from .. import peval
+    from ..pathmodel import PathV
+    rid = "C05.canonical"
+    lib = ctx.lib
+    R.rule(rid, "the path that try_inline_call hands on as the module key passes, after the locator, through a crate function K that the "
+                "evaluator (sa/peval.py, std::path's Unix semantics) shows to be a canonicaliser: K maps `./a/b`, `a/./b`, `a/c/../b` and "
+                "`a/b` to one path, and `./a` and `a` likewise. The locators answer with a path that keeps a leading `./` (they resolve "
+                "relative to the current directory), so `require('pkg/x')` through a source `./packages` and `require('../packages/x')` name "
+                "the same file with two different paths: without K the module is bundled, and run, twice")
+    fn = lib.fn(RPP + "::try_inline_call")
+    if not R.require(rid, "anchor:try_inline_call", fn is not None, "", "not found"):
+        return
+    a = ctx.an.fa(fn["path"])
+    inl = [c for c in thir.calls(fn) if c.get("fname") == "inline_require"]
+    if not R.require(rid, "anchor:inline_require-call", len(inl) >= 1, ctx.where(fn), "no inline_require call"):
+        return
+    PAIRS = [("./a/b", "a/b"), ("a/./b", "a/b"), ("a/c/../b", "a/b"), ("./a", "a"), ("./packages/x.lua", "packages/x.lua")]
+    for c in inl:
+        srcs = ctx.an.deep_source_calls(a, c["args"][1])
+        cands = []
+        for y in srcs:
+            q = lib.fn(callee_of(y) or "")
+            if q is not None and thir.body_of(q) and y.get("fname") != "find_require_path" and len(q["thir"].get("params", [])) == 1:
+                cands.append(q)
+        good = None
+        for q in cands:
+            ok = True
+            for x, y_ in PAIRS:
+                pe = peval.PEval(lib, ctx.an)
+                try:
+                    r1, r2 = pe.call_fn(q, [PathV(x)]), pe.call_fn(q, [PathV(y_)])
+                except peval.OutOfFuel:
+                    ok = False
+                    break
+                if not (isinstance(r1, str) and isinstance(r2, str) and str(r1) == str(r2)):
+                    ok = False
+                    break
+            if ok:
+                good = q
+                break
+        R.ob(rid, "try_inline_call|key-is-canonical", good is not None, ctx.where(fn, c.get("ln")),
+             "the key passes through `%s`, which maps every spelling pair to one path" % good["path"] if good is not None else
+             "no canonicalising function between the locator and the module key (functions on the way: %s): two spellings of one file give two modules" % [q["path"].split("::")[-1] for q in cands])
+
+
 def stack(R, ctx):
     rid = "C05.stack"
     lib = ctx.lib
@@ -180,6 +227,39 @@ def order(R, ctx):
         R.ob(rid, "module_definitions|IndexMap", bool(f) and "indexmap::map::IndexMap" in f[0]["tys"], ctx.adt_where(ad["path"]), f[0]["tys"][:100] if f else "field missing")
 
 
+def always_walked(R, ctx):
+    """A required module's block is handed back only after the inlining traversal ran over it -- on every path."""
+    rid = "C05.walk"
+    lib = ctx.lib
+    R.rule(rid, "MIR must-pass rule in the bundler: wherever the resource read from a required Lua file is wrapped as the `block` variant of "
+                "the bundler's resource enum (found by role: the enum under rules::bundle with a variant holding a nodes::block::Block), every "
+                "path from the function's entry to that construction passes through a scope-tracking `visit_block` call: no fast path, "
+                "cache or textual pre-filter may return a module whose own `require` calls have not been inlined")
+    enums = []
+    for p, a in lib.adts.items():
+        if p.startswith("rules::bundle") and a.get("kind") == "enum":
+            for v in a["variants"]:
+                if len(v["fields"]) == 1 and v["fields"][0]["tys"] == "nodes::block::Block":
+                    enums.append((p, v["name"]))
+    if not R.require(rid, "anchor:resource-enum", len(enums) >= 1, "", "enum with a Block variant under rules::bundle: %s" % enums):
+        return
+    n = 0
+    for f in lib.fn_list:
+        if not f.get("mir") or not f["path"].startswith(("rules::bundle", "<rules::bundle")):
+            continue
+        cfg = mir.Cfg(lib, f)
+        sites = [(i, st) for i, bb in enumerate(cfg.blocks) for st in bb.get("s", []) if st.get("rv") == "adt" and (st.get("adt"), st.get("variant")) in enums]
+        if not sites:
+            continue
+        walks = [i for i, t in cfg.calls() if t.get("fname") == "visit_block" and any(v in (cfg.callee(t) or "") for v in ("ScopeVisitor", "ScopePostVisitor"))]
+        for i, st in sites:
+            n += 1
+            ok = bool(walks) and cfg.must_pass(walks, i)
+            R.ob(rid, "%s|walk-before-block" % f["path"].split("::")[-1], ok, ctx.where(f, st.get("ln")),
+                 "the Block resource is built %s the scope-tracking walk" % ("only after" if ok else "on a path that SKIPS"))
+    R.require(rid, "floor:sites", n >= 1, "", "%d constructions of the Block resource" % n)
+
+
 def run(R, ctx):
     R.explanation = (
         "Structural conditions of the bundler: scope tracking on every inlining traversal (resolved generic arguments of the visit_block "
@@ -193,9 +273,11 @@ def run(R, ctx):
         if d["processor"].startswith("rules::convert_require::RequireConverter") and d["visitor"] not in SCOPE_VISITORS:
             R.info("INFO (no listed property covers convert_require): RequireConverter queries the scope (%s) but is driven by %s at %s:%s" % (uses, d["visitor"].split("::")[-1], d["file"], d["line"]))
     key(R, ctx)
+    canonical_key(R, ctx)
     stack(R, ctx)
     errors(R, ctx)
     order(R, ctx)
+    always_walked(R, ctx)
     from .. import loops
     loops.index_removal_rule(R, ctx, "C05.index")
     # data files required by a bundle go through the same serde -> Lua expression serializer (transcode): its value preservation
